@@ -175,6 +175,33 @@ theorem derived_ratio (c : Ctx K) (a b : E) (x y : K) (ha : evalE c a = some x) 
     evalE c (.div a b) = some (if y = 0 then 0 else x / y) :=
   evalE_div c a b x y ha hb
 
+/-- Liquid = water + oil, on the W, G and F level: the value of the table entry `XLPR` is the
+sum of the two phase rates (table fact and evaluator together). -/
+theorem liquid_is_water_plus_oil (c : Ctx K) :
+    ∀ x ∈ levels, (lookupFun (lvl x "LPR")).bind (evalE c) =
+      some (evalRate .wat false c + evalRate .oil false c) :=
+  liquid_value c
+
+/-- Water cut = water / (water + oil), 0 when nothing is produced. -/
+theorem water_cut_definition (c : Ctx K) :
+    ∀ x ∈ levels, (lookupFun (lvl x "WCT")).bind (evalE c) =
+      some (if evalRate .wat false c + evalRate .oil false c = 0 then 0
+            else evalRate .wat false c / (evalRate .wat false c + evalRate .oil false c)) :=
+  water_cut_value c
+
+/-- GOR = gas / oil, 0 when no oil is produced. -/
+theorem gor_definition (c : Ctx K) :
+    ∀ x ∈ levels, (lookupFun (lvl x "GOR")).bind (evalE c) =
+      some (if evalRate .oil false c = 0 then 0 else evalRate .gas false c / evalRate .oil false c) :=
+  gor_value c
+
+/-- Voidage production rate = sum of the three reservoir-volume rates. -/
+theorem voidage_definition (c : Ctx K) :
+    ∀ x ∈ levels, (lookupFun (lvl x "VPR")).bind (evalE c) =
+      some (evalRate .reservoir_water false c + evalRate .reservoir_oil false c +
+            evalRate .reservoir_gas false c) :=
+  voidage_value c
+
 /-- The two spellings of "free gas total" (`WGPTF` vs `GGPTF`) have the same value. -/
 theorem distribute_duration (c : Ctx K) (a b : E) :
     evalE c (.sub (.mul a .duration) (.mul b .duration)) = evalE c (.mul (.sub a b) .duration) :=
@@ -212,6 +239,18 @@ theorem efac_sem_well_rate (gs : List (GroupIn K)) (node : String) (ws : List (W
     setFactors gs .well false node ws = none := by
   simp [setFactors]
 
+/-- In the evaluator update the factor applied to a well of the node's well set *is* the walk
+(1 for well-level keys that are not totals). -/
+theorem efac_used_by_update (gs : List (GroupIn K)) (ws : List (WellIn K)) (cat : Cat) (node key : String)
+    (dt : K) (hn : ((findWells gs ws cat node).map (·.name)).Nodup)
+    (w : WellIn K) (hw : w ∈ findWells gs ws cat node) :
+    (nodeCtx gs ws cat node key dt).efac w.name =
+      if cat = .well ∧ configIsTotal key = false then 1
+      else walkUp (parentOf gs) (gefacOf gs)
+        (if cat = .group ∧ configIsTotal key = false then some node else none)
+        (gs.length + 1) w.group w.wefac :=
+  nodeCtx_efac gs ws cat node key dt hn w hw
+
 /-- The walk and the tree agree: when the parent pointers realise a well's path in the forest,
 the walked factor is the forest factor. -/
 theorem efac_walk_is_forest_factor (parent : String → Option String) (gefac : String → K)
@@ -246,6 +285,18 @@ theorem cumulative_step (key : String) (htot : stateIsTotal key = true) (f : K) 
     (evalE c (.mul r .duration)).map (fun v => stateUpdate key prev (fromSi f v)) =
       some (prev + f * (R * c.dt)) :=
   cumulative_one key htot f r c R prev hR
+
+/-- The same through the whole evaluator update (`find_wells`, `setFactors`, table lookup,
+`from_si`, `SummaryState::update`): T_{n+1} = T_n + factor · R · dt for a total key whose entry is
+`mul r duration`, `R` being `r` evaluated with the node's wells and efficiency factors. -/
+theorem cumulative_step_update (gs : List (GroupIn K)) (ws : List (WellIn K)) (cat : Cat)
+    (node key : String) (dt f prev R : K) (r : E) (u : String)
+    (hk : lookupFun key = some (.mul r .duration)) (htot : stateIsTotal key = true)
+    (hu : unitOf (.mul r .duration) = some u)
+    (hR : evalE (nodeCtx gs ws cat node key dt) r = some R) :
+    (nodeValue gs ws cat node key dt).map (fun vu => stateUpdate key prev (fromSi f vu.1)) =
+      some (prev + f * (R * dt)) :=
+  node_cumulative gs ws cat node key dt f prev R r u hk htot hu hR
 
 /-- … and after any number of steps: initial value + Σ factor × rate_i × dt_i. -/
 theorem cumulative_steps (key : String) (htot : stateIsTotal key = true) (f : K) (r : E)
@@ -302,6 +353,14 @@ example : forest1.names.Nodup := by decide
 example : forest1.NonNeg := by simp [forest1, Forest.NonNeg, wProd]; norm_num
 example : forest1.facs 1 = [(wProd "P1" "G1" 1 (-10) (-3), 1), (wProd "P3" "G2" (1/2) (-4) 2, 3/8)] := by
   simp [forest1, Forest.facs, wProd]; norm_num
+
+/-- hypotheses of `cumulative_step_update` are met by `WOPT` -/
+example : lookupFun "WOPT" = some (.mul (.rate .oil false) .duration) ∧ stateIsTotal "WOPT" = true ∧
+    unitOf (.mul (.rate .oil false) .duration) = some "liquid_surface_volume" := by
+  refine ⟨?_, ?_, ?_⟩
+  · unfold lookupFun; rw [lookupK_eq]; decide +kernel
+  · decide +kernel
+  · decide +kernel
 
 end Examples
 
